@@ -240,7 +240,7 @@ def coqchk(prop):
 # ------------------------------------------------------------------------------------------------
 # pipeline: programs -> implementation / model / monitors
 
-SIZES = {"quick": dict(flat=60, wf=150, fault=114, free=120, known=9, chains=25, chain_exh=3, perm_bases=70, perms=3, stub_bases=40, skel=2, names=False, tiny=1),
+SIZES = {"quick": dict(flat=60, wf=150, fault=114, free=120, known=9, chains=25, chain_exh=3, perm_bases=90, perms=3, stub_bases=55, skel=2, names=False, tiny=1),
          "thorough": dict(flat=800, wf=3000, fault=1900, free=3000, known=60, chains=300, chain_exh=6, perm_bases=500, perms=4, stub_bases=400, skel=4, names=True, tiny=2),
          "search": dict(flat=250, wf=900, fault=570, free=900, known=30, chains=60, chain_exh=4, perm_bases=150, perms=3, stub_bases=120, skel=3, names=False, tiny=1)}
 
@@ -372,7 +372,7 @@ def pipeline(seed, tier):
     for p, m in gen.gen_chains_random(seed + 1, sz["chains"]) + gen.gen_chains_exhaustive(seed + 2, sz["chain_exh"]):
         batch.append((ser(p), m))
     for p, m in gen.gen_skeletons(sz["skel"]) + (gen.gen_name_triples() if sz["names"] else []) + gen.gen_tiny(sz["tiny"]) \
-            + gen.gen_retmix({"quick": 6, "search": 2}.get(tier, 1)) + gen.gen_typeeq() + gen.gen_wide() \
+            + gen.gen_retmix({"quick": 6, "search": 2}.get(tier, 1)) + gen.gen_typeeq() + gen.gen_wide() + gen.gen_shapes2() \
             + (gen.gen_deep() if tier == "thorough" else gen.gen_deep()[:1] + gen.gen_deep()[3:4] + gen.gen_deep()[-4:]):
         batch.append((ser(p), m))
     # the same programs as an AST built with Ident::new has them: every identifier at (1, 0)
@@ -396,10 +396,13 @@ def pipeline(seed, tier):
         st = batch[i][1].get("stream")
         seen_in[st] = seen_in.get(st, 0) + 1
         rank[i] = seen_in[st]
-    order = sorted(range(nb), key=lambda i: ((0, rank[i]) if batch[i][1].get("stream") in ("fault", "flat") else (1, i)))
+    # (the hand-written shapes of corpus/H_shapes.sexp before everything else: few, and each is there
+    # because some seeded change needed exactly that shape)
+    order = sorted(range(nb), key=lambda i: ((-1, i) if batch[i][1].get("file") == "H_shapes.sexp" or batch[i][1].get("stream") == "shapes" else
+                                             (0, rank[i]) if batch[i][1].get("stream") in ("fault", "flat") else (1, i)))
     for i in order:
         text, meta = batch[i]
-        if meta.get("stream") not in ("wf", "fault", "flat", "free", "corpus"):
+        if meta.get("stream") not in ("wf", "fault", "flat", "free", "corpus", "shapes"):
             continue
         tree = None
         if n_perm < sz["perm_bases"] or n_stub < sz["stub_bases"]:
@@ -408,7 +411,7 @@ def pipeline(seed, tier):
             break
         if n_perm < sz["perm_bases"] and gen.eligible_for_permutation(tree):
             n_perm += 1
-            if tier == "thorough" and len(tree) - 1 <= 5:
+            if (tier == "thorough" and len(tree) - 1 <= 5) or len(tree) - 1 <= 3:
                 perms = list(gen.all_permutations_of(tree))
                 exhaustive = True
             else:
